@@ -217,9 +217,10 @@ let handle (cmd : string) (rest : string) : string =
            let weak_client = { min_version = n_of_int 769; cauth = NoClientCert; insecure_skip_verify = false } in
            let intended_server = { min_version = n_of_int 771; cauth = RequireAndVerifyClientCert; insecure_skip_verify = false } in
            let intended_client = { min_version = n_of_int 771; cauth = NoClientCert; insecure_skip_verify = false } in
-           let is_server = (role = "server" || role = "server-weak" || role = "intended-server") in
+           let is_server = (role = "server" || role = "server-weak" || role = "server-shared" || role = "intended-server") in
            let cfg = (match role with
              | "server" -> inst_server_tls | "client" -> inst_client_tls
+             | "server-shared" -> (match inst_server_tls with Some s -> inst_client_tls_from s | None -> None)
              | "server-weak" -> inst_server_tls_from weak_server | "client-weak" -> inst_client_tls_from weak_client
              | "intended-server" -> Some intended_server | "intended-client" -> Some intended_client
              | _ -> failwith "role") in
